@@ -521,6 +521,12 @@ func report(p *Prop, tier string, seed int64, st *Stats, compared, identical int
 			path = writeReplay(replayDir, p.ID, seed, gi, f.Scenario, f.V, false)
 			mv = f.V
 			if !verifyReplay(path) {
+				if sp := trySequence(replayDir, p, tier, seed, gi, f, nw); sp != "" {
+					violations++
+					fmt.Printf("VIOLATION property=%s replay=%s\n", p.ID, sp)
+					fmt.Printf("  kind=%s cases=%d (reproduces only together with the scenarios executed before it in the same process) detail=%s\n", f.V.Kind, len(groups[g]), oneLine(f.V.Detail, 400))
+					continue
+				}
 				fmt.Fprintf(os.Stderr, "INFRA: violation (kind=%s) does not replay in a fresh process: %s\n", f.V.Kind, path)
 				unreplayable++
 				continue
@@ -618,6 +624,49 @@ type ReplayFile struct {
 	Minimised bool      `json:"minimised"`
 	Scenario  *Scenario `json:"scenario"`
 	Note      string    `json:"note"`
+	// Sequence, when set, says that the violation needs the scenarios executed
+	// before it in the same process (state the library keeps process-wide): the
+	// replay re-executes scenarios From, From+NW, ..., To of (tier, seed) in one
+	// fresh process and judges the last one.
+	Sequence *SeqSpec `json:"sequence,omitempty"`
+}
+
+type SeqSpec struct {
+	Tier string `json:"tier"`
+	Seed int64  `json:"seed"`
+	NW   int    `json:"stride"`
+	From int    `json:"from"`
+	To   int    `json:"to"`
+}
+
+// trySequence: a violation that a fresh process does not reproduce from its
+// scenario alone is re-tried together with its predecessors in the worker
+// that found it (1, 3, 10, ... of them), each attempt in a fresh process.
+func trySequence(dir string, p *Prop, tier string, seed int64, n int, f Found, nw int) string {
+	if nw <= 0 {
+		return ""
+	}
+	w := f.Index % nw
+	os.MkdirAll(dir, 0o755)
+	for _, k := range []int{1, 3, 10, 40, 200, 1000, 5000, 20000} {
+		from := f.Index - k*nw
+		if from < w {
+			from = w
+		}
+		path := filepath.Join(dir, fmt.Sprintf("%s-%d-%d.json", p.ID, seed, n))
+		rf := ReplayFile{Property: p.ID, Violation: f.V, Scenario: f.Scenario,
+			Sequence: &SeqSpec{Tier: tier, Seed: seed, NW: nw, From: from, To: f.Index},
+			Note:     "the violation depends on state left behind by the scenarios executed before it in the same process; replay with: /verif/run_check.sh replay " + path}
+		b, _ := json.MarshalIndent(rf, "", " ")
+		os.WriteFile(path, b, 0o644)
+		if verifyReplay(path) {
+			return path
+		}
+		if from == w {
+			break
+		}
+	}
+	return ""
 }
 
 func writeReplay(dir, prop string, seed int64, n int, sc *Scenario, v Violation, min bool) string {
@@ -663,6 +712,21 @@ func replayMain(args []string) int {
 		return 2
 	}
 	st := NewStats()
+	if sq := rf.Sequence; sq != nil {
+		for i := sq.From; i < sq.To; i += sq.NW {
+			cs := deriveSeed(sq.Seed, p.ID, i)
+			if sc := p.Gen(cs, i, sq.Tier); sc != nil {
+				sc.Prop, sc.Seed = p.ID, cs
+				safeRun(p, sc)
+			}
+		}
+		cs := deriveSeed(sq.Seed, p.ID, sq.To)
+		rf.Scenario = p.Gen(cs, sq.To, sq.Tier)
+		if rf.Scenario == nil {
+			return 2
+		}
+		rf.Scenario.Prop, rf.Scenario.Seed = p.ID, cs
+	}
 	vs := p.Run(rf.Scenario, st)
 	for _, v := range vs {
 		if v.Kind == rf.Violation.Kind {
